@@ -81,9 +81,9 @@ func runC20(r *R) {
 
 	// ---- R2
 	r.Rule("C20-R2", "fan-out (go statements) only under NOT cannotSplit ∧ Count==\"none\" ∧ NOT(Limit>=0) ∧ Offset==0 ∧ NOT(len(Order)>0) ∧ NOT(nUUIDs > max)", 1)
-	r.Rule("C20-R3", "each per-cluster goroutine performs exactly one send on errs on every path; collector reads one value per cluster; cap(errs) = len(todoByRemote)", 3)
-	r.Rule("C20-R4", "page loop terminates: leaves on len(done)==0; error when !progress; progress only with delete(todo, uuid) under uuid ∈ todo; loop condition len(todo) > 0", 4)
-	r.Rule("C20-R5", "home cluster: backend = conn.local iff clusterID == ClusterID else conn.remotes[clusterID] (nil ⇒ error); clusterID = uuid[:5]; filter is exactly {uuid in batch}", 3)
+	r.Rule("C20-R3", "each per-cluster goroutine performs exactly one send on errs on every path; collector reads one value per cluster; cap(errs) = len(todoByRemote)", 1)
+	r.Rule("C20-R4", "page loop terminates: leaves on len(done)==0; error when !progress; progress only with delete(todo, uuid) under uuid ∈ todo; loop condition len(todo) > 0", 1)
+	r.Rule("C20-R5", "home cluster: backend = conn.local iff clusterID == ClusterID else conn.remotes[clusterID] (nil ⇒ error); clusterID = uuid[:5]; filter is exactly {uuid in batch}", 1)
 	r.Rule("C20-R6", "first error wins: splitListRequest returns firstErr; generated lists return (merged, err) and merge under mtx", 3)
 	r.Rule("C20-R7", "filter intersection: matchAllFilters is replaced by the current filter's set only while it is nil; otherwise it only shrinks (delete)", 1)
 	fn := r.NeedFn("C20-R2", connT+"splitListRequest")
@@ -99,8 +99,8 @@ func runC20(r *R) {
 			gN, _ := Guard(fn, nil, g, EqC("opts.Count == \"none\"", CanonHas("ListOptions.Count"), ConstStrVP("none")))
 			gL, _ := Guard(fn, nil, g, LtC("opts.Limit < 0", CanonHas("ListOptions.Limit"), ConstIntVP(0)))
 			gO, _ := Guard(fn, nil, g, EqC("opts.Offset == 0", CanonHas("ListOptions.Offset"), ConstIntVP(0)))
-			gR, _ := Guard(fn, nil, g, NotC(LtC("0 < len(opts.Order)", ConstIntVP(0), lenVP)))
-			gM, _ := Guard(fn, nil, g, NotC(LtC("max < nUUIDs", CanonHas("MaxItemsPerResponse"), func(v ssa.Value) bool { return isNamedPhi(v, "nUUIDs") })))
+			gR, _ := Guard(fn, nil, g, GeC("0 < len(opts.Order)", ConstIntVP(0), lenVP))
+			gM, _ := Guard(fn, nil, g, GeC("max < nUUIDs", CanonHas("MaxItemsPerResponse"), func(v ssa.Value) bool { return isNamedPhi(v, "nUUIDs") }))
 			r.Check(gC && gN && gL && gO && gR && gM, "C20-R2", fn, "go func(clusterID, todo)", g.Pos(), "all up-front rejections passed",
 				"backends can be called for a query that cannot be split safely (filters="+boolS(gC)+" count="+boolS(gN)+" limit="+boolS(gL)+" offset="+boolS(gO)+" order="+boolS(gR)+" size="+boolS(gM)+")")
 		}
